@@ -16,6 +16,32 @@ def cursor_table(prog):
 
 
 
+def r05_adjacent(chk, rule="R05-adjacent"):
+    """get_line_offset(): the offset of a token is the line distance to the token directly before it (comments are tokens that
+    carry their own offset, so skipping over them counts their lines twice on every load/save cycle)"""
+    from . import panics
+    from .common import Finding
+    prog = mir.prog()
+    n = 0
+    for fid, b in prog.bodies.items():
+        if not (fid.startswith("parser::ParserState::") and fid.endswith("::get_line_offset")):
+            continue
+        n += 1
+        obs = panics.obligations_of(b, prog)[0]
+        idx = set()
+        for o in obs:
+            if o.kind == "BoundsCheck" and "token_cursor.tokens" in o.desc:
+                idx.add(o.desc.split("index=", 1)[1])
+        want = {"(arg1.token_cursor.pos Sub 2)", "(arg1.token_cursor.pos Sub 1)"}
+        if not want <= idx:
+            chk.add(Finding(rule, rule + "::pair", "get_line_offset no longer compares tokens[pos-1] with tokens[pos-2] (indices used: %s)" % sorted(idx), b.where()))
+        for x in sorted(idx - want - {"0"}):
+            chk.add(Finding(rule, rule + "::index::" + x, "get_line_offset reads the token at index %s: line offsets must be measured between directly adjacent tokens" % x, b.where()))
+        if b.natural_loops():
+            chk.add(Finding(rule, rule + "::loop", "get_line_offset contains a loop (it searches for another token instead of using the directly preceding one)", b.where()))
+    chk.rule(rule, "get_line_offset measures the distance between directly adjacent tokens (indices pos-1 / pos-2, no search loop)", n, floor=1)
+
+
 def run(chk):
     genrules.r04_grammar(chk, rule="R05-grammar-aux", slot_rule="R05-slot", stop_rule="R05-aux-stop")
     # only the slot findings belong to C05: drop the auxiliary rules' findings (they are reported under C04/C07)
@@ -26,5 +52,8 @@ def run(chk):
     genrules.expansion_diffs(chk, "R05-shipped", lambda k: ("[stringify]" in k) or "[new]" in k,
                              "generated stringify/new items identical (canonical form) to the generator's output")
     plumbing.r05_plumb(chk)
+    r05_adjacent(chk)
+    from . import writertab
+    writertab.compare(chk, "R05-writer", fn_filter=lambda fn: fn.split("::")[-1] in ("add_whitespace", "add_group", "add_str_raw", "add_quoted_string", "add_str"), floor=30)
     diag.compare(chk, "R05-cursor", "cursor", cursor_table(mir.prog()), "steps of the tokenizer's scan position / line counter with their control predicates (which bytes end a token, what is trimmed before /end A2ML), compared with the reviewed table", floor=29)
     chk.assumptions += ["not decided: that every token lands on its input line, and edit locality (line arithmetic over runtime counts)"]
